@@ -1,4 +1,5 @@
 import DirectVerif.Lemmas.C17Nets
+import DirectVerif.Lemmas.C17ChanEmit
 import DirectVerif.Model.BatchSep
 /-!
 # C17 — every network in the zoo honours its shape contract for all input sizes
@@ -341,6 +342,113 @@ theorem unrolledCalls_eq_blocks (pre body : List Block) (iters n coil : Nat) (sp
   | zero => rfl
   | succ k ih => simp only [List.replicate_succ, List.flatten_cons, List.flatMap_append, ih]
 
+
+/-! ## full shapes `(N, C, *spatial)`: the channel arithmetic of the denoisers
+
+`fullRun sp ch n c s` runs the spatial program `sp` and the channel program `ch` (register machine of
+`Model/ShapesChan.lean`: every convolution checks its `in_channels` against the running count, `torch.cat` adds the
+remembered skip tensors, `+` requires equal counts, DWT/IWT/PixelShuffle multiply and divide) side by side.  Each theorem
+gives, for **all** widths and depths, the final full shape `(N, cout, *spatial)`, the number of hook records, and the
+batch axis `N` at every hook. -/
+
+/-- **U-Net, full shape**: `UnetModel2d/3d(cin, cout, num_filters = F, num_pool_layers = L)` maps `(N, cin, *s)` to
+`(N, cout, *s)`: the filter count doubles per level (`F·2^i`), the transposed convolution halves it, the concatenation
+with the skip connection doubles it again, the final 1×1 convolution gives `cout` -/
+theorem unet_full_shape (L n cin cout F : Nat) (s : Shape) (hL : 1 ≤ L) (h : UAdm L s) :
+    ∃ t, fullRun (unet UnetP.std L) (unetC cin cout F L) n cin s = .ok ⟨n :: cout :: s, t⟩ ∧ t.length = 3 * L + 1 ∧
+      ∀ x ∈ t, x.head? = some n := by
+  have hc := unetC_ok L cin cout F []
+  have hne : L ≠ 0 := by omega
+  simp only [hne, if_false] at hc
+  have := fullRun_ok (n := n) (unet_shape_id L s [] [] h) hc (by rw [emits_unet, cemits_unetC])
+  rwa [emits_unet] at this
+
+/-- the channel contract alone, for any register file (the program is used as a sub-program of the unrolled networks) -/
+theorem unet_channels (L cin cout F : Nat) (hL : 1 ≤ L) (regs : List Nat) (tr : List Nat) :
+    ∃ tr', runC (unetC cin cout F L) ⟨cin, regs, tr⟩ = .ok ⟨cout, regs, tr'⟩ := by
+  have hc := unetC_ok L cin cout F regs
+  have hne : L ≠ 0 := by omega
+  simp only [hne, if_false] at hc
+  exact hc tr
+
+theorem normunet_full_shape (L n cin cout F : Nat) (s : Shape) (hL : 1 ≤ L) (h : UAdm L (s.map mult16)) :
+    ∃ t, fullRun (normUnet UnetP.std L) (normUnetC cin cout F L) n cin s = .ok ⟨n :: cout :: s, t⟩ ∧ t.length = 3 * L + 2 ∧
+      ∀ x ∈ t, x.head? = some n := by
+  have := fullRun_ok (n := n) (normunet_shape_id L s [] [] h) (normUnetC_ok L cin cout F hL []) (emits_normUnet_eq _ cin cout F L)
+  have e : emits (normUnet UnetP.std L) = 3 * L + 2 := by
+    simp only [normUnet, emits_append, emits_unet]; simp [emits]
+  rwa [e] at this
+
+theorem unet3d_full_shape (L n cin cout F : Nat) (s : Shape) (hL : 1 ≤ L) (h : UAdm L (s.map (padPow2 L))) :
+    ∃ t, fullRun (unet3d UnetP.std L) (unetC cin cout F L) n cin s = .ok ⟨n :: cout :: s, t⟩ ∧ t.length = 3 * L + 1 ∧
+      ∀ x ∈ t, x.head? = some n := by
+  have hc := unetC_ok L cin cout F []
+  have hne : L ≠ 0 := by omega
+  simp only [hne, if_false] at hc
+  have := fullRun_ok (n := n) (unet3d_shape_id L s [] [] h) hc (emits_unet3d_eq _ cin cout F L)
+  rwa [emits_unet3d_eq UnetP.std cin cout F L, cemits_unetC] at this
+
+theorem normunet3d_full_shape (L n cin cout F : Nat) (s : Shape) (hL : 1 ≤ L) (h : UAdm L ((s.map mult16).map (padPow2 L))) :
+    ∃ t, fullRun (normUnet3d UnetP.std L) (normUnetC cin cout F L) n cin s = .ok ⟨n :: cout :: s, t⟩ ∧ t.length = 3 * L + 2 ∧
+      ∀ x ∈ t, x.head? = some n := by
+  have := fullRun_ok (n := n) (normunet3d_shape_id L s [] [] h) (normUnetC_ok L cin cout F hL []) (emits_normUnet3d_eq _ cin cout F L)
+  have e : emits (normUnet3d UnetP.std L) = 3 * L + 2 := by
+    simp only [normUnet3d, unet3d, emits_append, emits_unet]; simp [emits]
+  rwa [e] at this
+
+/-- **MWCNN, full shape** for every number of scales, width and batch-norm option: DWT quadruples the channels, scale
+`idx` works at `F·2^idx`, its `up` block returns `F·2^(idx+1)`, IWT divides by four, the residual sums have equal counts,
+and the output has the input's channel count -/
+theorem mwcnn_full_shape (bn : Bool) (S n cin F : Nat) (s : Shape) (h : ∀ x ∈ s, mwAxisOk S x = true) :
+    ∃ t, fullRun (mwcnn MwP.std S) (mwcnnC bn cin F S) n cin s = .ok ⟨n :: cin :: s, t⟩ ∧
+      t.length = emits (mwcnn MwP.std S) ∧ ∀ x ∈ t, x.head? = some n :=
+  fullRun_ok (mwcnn_shape_id S s [] [] h) (mwcnnC_ok bn cin F S []) (emits_mwcnn_eq _ bn cin F S)
+
+theorem dub_full_shape (e : Bool) (n c : Nat) (s : Shape) (h : ∀ x ∈ s, 2 ≤ x) :
+    ∃ t, fullRun (dub DidnP.std e) (dubC c e) n c s = .ok ⟨n :: c :: s, t⟩ ∧ t.length = emits (dub DidnP.std e) ∧
+      ∀ x ∈ t, x.head? = some n :=
+  fullRun_ok (dub_shape_id e s [] [] h) (dubC_ok c e []) (emits_dub_eq _ c e)
+
+/-- **DIDN, full shape** for any number of DUBs (`≥ 1`) and reconstruction convolutions, any hidden width: inside a DUB
+`c → 2c → 4c`, the sub-pixel layers `8c → 2c` and `4c → c` (`PixelShuffle(2)` divides by four), the concatenations with
+the remembered `2c` / `c` tensors; the `nd` reconstruction outputs concatenate to `c·nd` = `recon_agg.in_channels`; with
+the (effective) skip connection the input and output channel counts must agree -/
+theorem didn_full_shape (nd nc n cin cout c : Nat) (skip : Bool) (s : Shape) (h : ∀ x ∈ s, 3 ≤ x) (hnd : 1 ≤ nd)
+    (hskip : skip = true → cin = cout) :
+    ∃ t, fullRun (didn DidnP.std nd nc skip) (didnC cin cout c nd nc skip) n cin s = .ok ⟨n :: cout :: s, t⟩ ∧
+      t.length = emits (didn DidnP.std nd nc skip) ∧ ∀ x ∈ t, x.head? = some n :=
+  fullRun_ok (didn_shape_id nd nc skip s [] [] h) (didnC_ok cin cout c nd nc skip hnd hskip []) (emits_didn_eq _ cin cout c nd nc skip skip)
+
+/-- why `DIDN.__init__` computes `self.skip_connection = in_channels == out_channels and skip_connection`: with different
+counts the final `x + out` cannot be formed -/
+theorem didn_skip_needs_equal_channels :
+    (runC (didnC 2 4 3 1 1 true) ⟨2, [], []⟩).toOption = none ∧
+      ((runC (didnC 2 4 3 1 1 false) ⟨2, [], []⟩).toOption.map (·.cur)) = some 4 := by decide
+
+theorem resnet_full_shape (nb n cin cout h : Nat) (bn : Bool) (s : Shape) (hs : ∀ x ∈ s, 1 ≤ x) :
+    ∃ t, fullRun (resnet 3 1 (nb + 1)) (resnetC cin cout h bn nb) n cin s = .ok ⟨n :: cout :: s, t⟩ ∧
+      t.length = emits (resnet 3 1 (nb + 1)) ∧ ∀ x ∈ t, x.head? = some n :=
+  fullRun_ok (resnet_shape_id (nb + 1) s [] [] hs) (resnetC_ok cin cout h bn nb []) (emits_resnet_eq cin cout h bn nb)
+
+theorem conv_full_shape (bn : Bool) (m n cin cout h : Nat) (s : Shape) (hs : ∀ x ∈ s, 1 ≤ x) :
+    ∃ t, fullRun (convNet 3 1 bn (m + 1)) (convNetC cin cout h bn (m + 1)) n cin s = .ok ⟨n :: cout :: s, t⟩ ∧
+      t.length = emits (convNet 3 1 bn (m + 1)) ∧ ∀ x ∈ t, x.head? = some n := by
+  have hc := convNetC_ok bn (m + 1) cin cout h []
+  simp only [Nat.succ_ne_zero, if_false] at hc
+  exact fullRun_ok (conv_shape_id bn (m + 1) s [] [] hs) hc (emits_convNet_eq bn (m + 1) cin cout h)
+
+/-- below the U-Net's minimum the *full* run fails as well (never a wrong full shape) -/
+theorem unet_full_fails_below_min (L n cin cout F : Nat) (s : Shape) (hs : ∀ x ∈ s, 1 ≤ x) (h : ¬ UAdm L s) :
+    ∃ e, fullRun (unet UnetP.std L) (unetC cin cout F L) n cin s = .error e := by
+  obtain ⟨e, he⟩ := unet_fails_below_min L s [] [] hs h
+  exact ⟨e, fullRun_spatial_err he⟩
+
+/-- a wrong width anywhere makes the channel program fail: e.g. an up-path block built as `ConvBlock(ch, ch)` instead of
+`ConvBlock(ch * 2, ch)` sees `2·F` channels after the concatenation -/
+theorem unet_wrong_width_fails :
+    (runC ([.conv 2 3, .conv 3 3, .save, .emit] ++ unetLvC 3 6 0 ++ [.conv 6 3, .emit, .cat [0], .drop 0] ++
+      convBlockC 3 3 ++ [.conv 3 2, .emit]) ⟨2, [], []⟩).toOption = none := by decide
+
 /-! ## non-vacuity: the hypotheses are met by odd, even, non-square, non-power-of-two sizes -/
 
 example : UAdm 3 [37, 24] := by simp [UAdm, Pos, numel]
@@ -358,6 +466,12 @@ example : (run (didn DidnP.std 2 3 true) ⟨[3, 11], [], []⟩).toOption.map (·
 example : run (didn DidnP.std 2 3 false) ⟨[2, 11], [], []⟩ = .error .runtime := by decide
 example : (run (gru true true 3) ⟨[5, 6], [], []⟩).toOption.map (·.cur) = some [5, 6] := by decide
 example : (run (gru false false 3) ⟨[5, 6], [], []⟩).toOption.map (·.cur) = some [5, 6] := by decide
+example : (fullRun (unet UnetP.std 2) (unetC 3 5 7 2) 2 3 [9, 6]).toOption.map (·.final) = some [2, 5, 9, 6] := by decide
+example : (fullRun (unet UnetP.std 1) (unetC 3 5 7 1) 2 3 [5, 6]).toOption.map (·.trace) =
+    some [[2, 7, 5, 6], [2, 14, 2, 3], [2, 7, 4, 6], [2, 5, 5, 6]] := by decide
+example : (fullRun (mwcnn MwP.std 3) (mwcnnC true 4 3 3) 1 4 [7, 10]).toOption.map (·.final) = some [1, 4, 7, 10] := by decide
+example : (fullRun (didn DidnP.std 3 2 true) (didnC 2 2 5 3 2 true) 3 2 [5, 9]).toOption.map (·.final) = some [3, 2, 5, 9] := by decide
+example : (fullRun (resnet 3 1 2) (resnetC 2 3 4 true 1) 1 2 [1, 7]).toOption.map (·.final) = some [1, 3, 1, 7] := by decide
 example : mult16 17 = 32 ∧ mult16 16 = 16 ∧ mult16 1 = 16 ∧ pad16Lo 21 = 5 ∧ pad16Hi 21 = 6 := by decide
 example : unrolledCalls [] [⟨.perCoil, 2, 2⟩, ⟨.image, 2, 2⟩] 2 1 3 [5, 6] =
     [⟨[1, 2, 5, 6], [1, 2, 5, 6]⟩, ⟨[1, 2, 5, 6], [1, 2, 5, 6]⟩, ⟨[1, 2, 5, 6], [1, 2, 5, 6]⟩, ⟨[1, 2, 5, 6], [1, 2, 5, 6]⟩,
